@@ -191,6 +191,11 @@ func main() {
 			// whole-string case swaps
 			judge(fmt.Sprintf("k%d.rec.upper", ki), strings.ToUpper(rs), false)
 			judge(fmt.Sprintf("k%d.id.lower", ki), strings.ToLower(is), false)
+			// the same keys and plugin payloads under the Bech32m checksum constant (BIP 350): not age strings
+			judge(fmt.Sprintf("k%d.rec.bech32m", ki), refage.Bech32EncodeConst("age", k, refage.Bech32mConst), false)
+			judge(fmt.Sprintf("k%d.id.bech32m", ki), refage.Bech32EncodeConst("AGE-SECRET-KEY-", k, refage.Bech32mConst), false)
+			judge(fmt.Sprintf("k%d.prec.bech32m", ki), refage.Bech32EncodeConst("age1name", k[:ki%20+1], refage.Bech32mConst), false)
+			judge(fmt.Sprintf("k%d.pid.bech32m", ki), refage.Bech32EncodeConst("AGE-PLUGIN-NAME-", k[:ki%20+1], refage.Bech32mConst), false)
 			// case by region: everything before every split position in one case, the rest in the other (in particular:
 			// prefix in its expected case and the whole data part in the opposite one), for native and plugin strings
 			for si, str := range []string{rs, is, plugin.EncodeRecipient("name", k[:ki%20+1]), plugin.EncodeIdentity("name", k[:ki%20+1])} {
